@@ -421,6 +421,17 @@ example : AllDropped (run State.init demo) ∧ keys (run State.init demo).open =
 example : ((runTrace State.init [.peerSend [3] [1, 0] true, .receive, .unmarshalFd 0 0, .unmarshalFd 0 1]).map (·.2)) =
     [.ok, .ok, .err, .ok] := by decide
 
+/-- A `dup` the kernel refuses (the process has no descriptor left: EMFILE / ENFILE) changes nothing at all — no cell,
+    no descriptor, no reference count, neither table — and reports an error; a push whose `dup` is refused is a failed
+    push (`Item.bad`), for which `push_fail_rolls_back` says that everything duplicated for the earlier elements is
+    closed again. -/
+theorem refused_dup_changes_nothing (s : State) (h : Nat) :
+    (step s (.dupHandleFail h)).1 = s ∧ ((step s (.dupHandleFail h)).2 = .err ∨ (step s (.dupHandleFail h)).2 = .illegal) := by
+  simp only [step]
+  refine ⟨dupHandleFail_state s h, ?_⟩
+  unfold dupHandleFail
+  split <;> simp
+
 end Rustbus.FdTable
 
 #print axioms Rustbus.FdTable.inv_initial
@@ -444,3 +455,4 @@ end Rustbus.FdTable
 #print axioms Rustbus.FdTable.per_message_fifo
 #print axioms Rustbus.FdTable.unmarshal_index
 #print axioms Rustbus.FdTable.body_entries_alive
+#print axioms Rustbus.FdTable.refused_dup_changes_nothing
